@@ -13,7 +13,7 @@ import sys
 import time
 
 VERIF = os.path.dirname(os.path.dirname(os.path.abspath(__file__)))
-SCR = '/var/tmp/hv-seeds'
+SCR = os.environ.get('HV_SEEDS_SCR', '/var/tmp/hv-seeds')      # a second campaign can run next to the first
 
 
 def sh(cmd, cwd=None, env=None, timeout=3600):
@@ -31,7 +31,7 @@ def main(ids):
     sh(['git', 'clone', '-q', '/repo', SCR + '/repo'])
     sh(['rsync', '-a', '--exclude', 'evidence/replays', VERIF + '/', SCR + '/verif/'])
     env = dict(os.environ, HABUTAX_REPO=SCR + '/repo', PYTHONDONTWRITEBYTECODE='1', HABUTAX_VERIF='1')
-    out_path = os.path.join(VERIF, 'seeded', 'RESULTS.json')
+    out_path = os.environ.get('HV_SEEDS_OUT', os.path.join(VERIF, 'seeded', 'RESULTS.json'))
     results = json.load(open(out_path)) if os.path.exists(out_path) else {}
     head = sh(['git', '-C', '/repo', 'rev-parse', '--short', 'HEAD'])[1].strip()
     try:
